@@ -248,6 +248,10 @@ impl<F: Float, const MULTI_TASK: bool> ParamGuard for ElasticNetParamsBase<F, MU
             Err(ElasticNetError::InvalidTolerance(
                 self.0.tolerance.to_f32().unwrap(),
             ))
+        } else if self.0.max_iterations == 0 {
+            Err(ElasticNetError::BaseCrate(linfa::Error::Parameters(
+                "max_iterations has to be at least 1".to_string(),
+            )))
         } else {
             Ok(&self.0)
         }
